@@ -23,6 +23,7 @@ fn registry() -> Vec<(&'static str, RunFn, ReplayFn)> {
         ("C07", props::c07::run, props::c07::replay),
         ("C08", props::c08::run, props::c08::replay),
         ("C09", props::c09::run, props::c09::replay),
+        ("C10", props::c10::run, props::c10::replay),
         ("C11", props::c11::run, props::c11::replay),
         ("C16", props::c16::run, props::c16::replay),
         ("C17", props::c17::run, props::c17::replay),
